@@ -361,7 +361,11 @@ func (x *Exec) applyContract(fr *Frame, st *State, c *Contract, fn *ssa.Function
 	}
 	vars := x.bindParams(c, fn, args)
 	pre := st.clone()
-	env := &SpecEnv{x: x, vars: vars, cur: pre, old: pre, pkg: pkg}
+	var hint token.Pos
+	if fn != nil {
+		hint = fn.Pos()
+	}
+	env := &SpecEnv{x: x, vars: vars, cur: pre, old: pre, pkg: pkg, posHint: hint}
 	for _, r := range c.Requires {
 		t := x.guardedEval(func() *Term { return env.evalBool(r.E) }, c, r)
 		x.oblige(fr, st, "call.pre", name, labelOr(r.Label, ""), t, pos, r.Src)
@@ -393,7 +397,7 @@ func (x *Exec) applyContract(fr *Frame, st *State, c *Contract, fn *ssa.Function
 	if c.Trusted && res != nil {
 		x.assumeZeroOffsets(res)
 	}
-	post := &SpecEnv{x: x, vars: map[string]*Value{}, cur: st, old: pre, pkg: pkg}
+	post := &SpecEnv{x: x, vars: map[string]*Value{}, cur: st, old: pre, pkg: pkg, posHint: hint}
 	for k, v := range vars {
 		post.vars[k] = v
 	}
